@@ -12,8 +12,17 @@ InDomain(in, obs) ==
 
 Expected(in) == SelectSeq([k \in DOMAIN in.subjects |-> k], LAMBDA k : GlobMatch(in.pat, in.subjects[k], in.fold))
 
+\* -name on a starting point: the subject is the last component of the spelling ("." and ".." are components,
+\* trailing slashes are not)
+W == INSTANCE FindWalk
+RootNamesOK(in, obs) ==
+  "spells" \in DOMAIN in =>
+     /\ "rootname" \in DOMAIN obs /\ Len(obs.rootname) = Len(in.spells)
+     /\ \A k \in DOMAIN in.spells : obs.rootname[k] = GlobMatch(in.pat, W!NameOf(in.spells[k]), in.fold)
+
 Conforms(in, obs) ==
   /\ "panic" \notin DOMAIN obs
+  /\ RootNamesOK(in, obs)
   /\ "exit" \notin DOMAIN obs
   /\ obs.lname = Expected(in)
   /\ LET names == SelectSeq(Expected(in), LAMBDA k : obs.name_ok[k]) IN
